@@ -20,7 +20,7 @@ RULE = ('case = (operation sequence, log subset, mode, transport); every case ex
         'mixes reads and sends, or a read boundary cuts a multi-byte character, or a control character is sent')
 ASSUMPTIONS = ['the peer delivers one chunk right before each read operation and the library reads all of it (maxread 2000)',
                'interact() logging is judged by C15 with the same recording log objects']
-REQUIRED_FLAGS = {'mixed': 1, 'cut_char': 1, 'control_logged': 1, 'all_three_logs': 1}
+REQUIRED_FLAGS = {'mixed': 1, 'cut_char': 1, 'control_logged': 1, 'all_three_logs': 1, 'interact_piece_needing_several_writes': 1}
 
 CHUNKS = [b'ab', b'\xc3\xa9', b'x\xe2\x82\xac', b'y\xf0\x9d\x84\x9e', b'z']
 TAILS = [b'\xc3', b'\xe2', b'\xe2\x82', b'\xf0\x9d', b'']
@@ -48,6 +48,8 @@ def bounds(tier):
 
 def tasks(tier):
     out = [dict(kind='interact', mode=m, tier=tier) for m in ('bytes', 'utf-8')]
+    # ... and with a child that takes one byte per write (keystroke pieces then need several writes: logged once)
+    out += [dict(kind='interact', mode=m, tier=tier, write_cap=1) for m in ('bytes', 'utf-8')]
     for tr in TR.NAMES:
         for mode in ('bytes', 'utf-8'):
             for sub in SUBSETS:
@@ -259,6 +261,8 @@ def run_interact_logs(task, acc, only=None):
     from mc.explore import dfs, Chooser
     mode = task['mode']
     cfg = dict(filt='none', mode=mode, esc='default', poll=False, pending=False)
+    if task.get('write_cap'):
+        cfg['write_cap'] = task['write_cap']
     if only is not None:
         obs, viol = c15.run_interact(Chooser(only['choices']), cfg, only['pieces'], tuple(only['merge']), only['ending'], logs=True)
         return eval_interact(obs, viol, mode, only['pieces'])
@@ -271,6 +275,8 @@ def run_interact_logs(task, acc, only=None):
                 acc.transitions += len(mg) + 1
                 acc.nontrivial += 1
                 acc.flags['mixed'] += 1
+                if task.get('write_cap') and max(len(p_) for p_ in pieces + [b'']) >= 3:
+                    acc.flags['interact_piece_needing_several_writes'] += 1
                 v = eval_interact(obs, viol, mode, pieces)
                 acc.outcomes['interact:%s' % ('viol' if v else 'ok')] += 1
                 if v:
